@@ -31,7 +31,7 @@ inductive Entry where
   deriving Repr, Inhabited
 
 /-- What `lstat` + read shows of one object (the unit of the recursive listing). -/
-inductive Node where
+inductive TNode where
   | file (b : Bytes) (x : Bool)
   | dir
   | link (t : Bytes)
@@ -52,7 +52,7 @@ inductive Err where
 
 namespace Entry
 
-def node : Entry → Node
+def node : Entry → TNode
   | .file b x => .file b x
   | .dir _ => .dir
   | .link t => .link t
@@ -89,7 +89,7 @@ def get : Entry → Path → Option Entry
     | none => none
   | _, _ :: _ => none
 
-def nodeAt (e : Entry) (p : Path) : Option Node := (e.get p).map node
+def nodeAt (e : Entry) (p : Path) : Option TNode := (e.get p).map node
 
 /-- two objects have the same recursive listing (names, kinds, contents, executable bits,
     link targets, empty directories, nothing extra) -/
@@ -389,13 +389,13 @@ def insertSorted (x : Bytes) : List Bytes → List Bytes
   | [] => [x]
   | y :: ys => if bytesLt y x then y :: insertSorted x ys else x :: y :: ys
 
-def sortBytes : List Bytes → List Bytes
+def sortBytesT : List Bytes → List Bytes
   | [] => []
-  | x :: xs => insertSorted x (sortBytes xs)
+  | x :: xs => insertSorted x (sortBytesT xs)
 
 /-- declared output definitions vs. definitions of the stored outputs: equal length and equal after sorting -/
 def validateOutputs (declared stored : List Bytes) : Bool :=
-  declared.length == stored.length && sortBytes declared == sortBytes stored
+  declared.length == stored.length && sortBytesT declared == sortBytesT stored
 
 /-! ### Well-formedness of a tree read from a real directory -/
 
